@@ -12,7 +12,9 @@ exactly the object or fails, follows at most max_redirects redirects, never cont
 and the text of whatever it raises names no userinfo, query string or fragment of the object's URL or
 of a redirect target.  Replay = un-stubbed: the public ``fetch_url`` (real aiohttp, real sockets, the
 library's own event-loop thread) against a real HTTP origin on loopback that behaves like the
-counterexample's; it also looks at the library's log records.
+counterexample's; it also looks at the library's log records.  One item runs the public ``fetch_url`` itself (only
+its event-loop plumbing scripted), so that what it does after a failed attempt -- session reset and a second attempt --
+is inside the judged run: every request of every attempt counts.
 
 Redaction half — fetch errors never contain URL userinfo, query strings or fragments.
 
@@ -66,6 +68,8 @@ ASSUMPTIONS = [
     "(all of them, found through __subclasses__) or the builtin TimeoutError / ConnectionResetError, constructed with the arguments aiohttp passes (the yarl URL for InvalidURL / NonHttpUrlClientError, "
     "RequestInfo(url without userinfo, real_url) + status 400 for the ClientResponseError family, ConnectionKey(host, port) + OSError for connector errors, nothing for timeouts / disconnects); "
     "its text is the live class's own rendering; a target the library refuses to request (InvalidURL / NonHttpUrl families) is refused for whichever method asks first",
+    "fetch_url plumbing := _ensure_pool / _reset_session give a pool whose session is the scripted origin (a reset = new connections to the same origin), "
+    "asyncio.run_coroutine_threadsafe(coro, loop).result() drives the coroutine in place, time.monotonic is constant; the failing request fails the first 1..N times it is attempted, then goes through",
     "sx string model: ASCII char arrays with z3 Int code points (harness/_sx.py); validated each run against real str and, through the real redact_url/_validate_url, on random concrete URLs",
     "redact_url and _validate_url contain f-strings / str(exc): they are run from their live source with JoinedStr desugared to concatenation and str(x) -> identity on symbolic strings (sx.load); urllib.parse runs as the same bytecode",
     "validator := callback raising ValueError whose message embeds the URL (plain / quoted) or its user, password and query value",
@@ -361,6 +365,7 @@ def validate_url_error_embedding_components_is_redacted(budget: float, replay=No
 # ---------------------------------------------------------------------------
 
 from engine.api import HarnessModelError, cond  # noqa: E402
+from engine.reglob import reglobalize  # noqa: E402
 
 _M_USER, _M_PW, _M_TOK, _M_FRAG = "uSeRnAmE", "pAsSwOrD", "t0kEnVaLuE", "fRaGmEnT"
 _BASE = "https://" + _M_USER + ":" + _M_PW + "@origin.example/object?tok=" + _M_TOK + "#" + _M_FRAG
@@ -531,12 +536,15 @@ class _Origin:
             return _OResp(self, method, self.get_status, [], 0)
         return _OResp(self, method, 200, self._enc_header("get_enc"), self.delivered)
 
+    fault_left = None  # how many more times that request fails (None: every time)
     fault = None  # (method, hop, failure kind or thunk of it): the HTTP client itself fails that request (see _client_failure)
 
     def _maybe_fail(self, method: str, url: str) -> None:
         if self.fault is None:
             return
         fmethod, fhop, kind = self.fault
+        if self.fault_left == 0:
+            return
         if self._hop_of(url) == fhop:
             if isinstance(kind, _Thunk):
                 kind = kind.fn()
@@ -544,6 +552,8 @@ class _Origin:
             # a target the library refuses to request is refused whatever the method; other failures hit one request
             if fmethod == method or (_failure_stimulus(kind) or "").startswith("refused"):
                 self.requested.append((method, fhop))
+                if self.fault_left is not None:
+                    self.fault_left -= 1
                 raise _client_failure(kind, method, url)
 
     enc: dict = {}  # Content-Encoding header values (or thunks) of the HEAD answer / the delivering GET answer; '' = no header
@@ -627,11 +637,65 @@ class _Scenario(dict):
         return _Thunk(lambda: self[key])
 
 
+class _Pool:
+    """FetchPool stand-in: a 'running loop' token and the session (always a session onto the same scripted origin)."""
+
+    def __init__(self, session) -> None:  # noqa: ANN001
+        self.loop, self.session = "scripted-loop", session
+
+    def __getattr__(self, name: str):
+        raise HarnessModelError(f"FetchPool.{name} is not modelled")
+
+
+class _Future:
+    def __init__(self, coro) -> None:  # noqa: ANN001
+        self.coro = coro
+
+    def result(self, timeout=None):  # noqa: ANN001, ANN201
+        return _drive_coro(self.coro)
+
+    def __getattr__(self, name: str):
+        raise HarnessModelError(f"concurrent future: .{name} is not modelled")
+
+
+class _AsyncioStub:
+    """asyncio as fetch_url uses it: hand a coroutine to the pool's loop and wait for it."""
+
+    @staticmethod
+    def run_coroutine_threadsafe(coro, loop) -> _Future:  # noqa: ANN001
+        if loop != "scripted-loop":
+            coro.close()
+            raise HarnessModelError("coroutine submitted to something that is not the pool's loop")
+        return _Future(coro)
+
+    def __getattr__(self, name: str):
+        raise HarnessModelError(f"asyncio.{name} is not modelled")
+
+
+def _stub_reset_session(config, *, url: str = "", **kw) -> None:  # noqa: ANN001, ANN003
+    config._pool = _Pool(config._pool.session)  # a fresh session: new connections to the same origin
+
+
+class _ClockStub:
+    """time as fetch_url uses it (a duration for its debug log line); no time passes in the scripted world."""
+
+    @staticmethod
+    def monotonic() -> float:
+        return 0.0
+
+    def __getattr__(self, name: str):
+        raise HarnessModelError(f"time.{name} is not modelled")
+
+
+_fetch_url_stubbed = reglobalize(xf.fetch_url, _ensure_pool=lambda config: config._pool, _reset_session=_stub_reset_session, asyncio=_AsyncioStub(), time=_ClockStub())
+
+
 def _fetch_scenario(a: dict):  # noqa: ANN201
     lz = a.lazy if isinstance(a, _Scenario) else (lambda key: a.get(key))
     origin = _Origin(a["head_ok"], a["declared"] if a["has_cl"] else None, a["delivered"], a["chunk"], a["head_hops"], a["get_hops"],
                      lz("cap"), lz("head_status") if "head_status" in a else 405, lz("get_status") if "get_status" in a else 200)
     origin.fault = a.get("fault") if "fault" in a else None
+    origin.fault_left = a.get("fault_times") if "fault_times" in a else None
     origin.enc = {"head_enc": lz("head_enc") if "head_enc" in a else "", "get_enc": lz("get_enc") if "get_enc" in a else ""}
     cfg = _Cfg(lz("cap"), lz("max_redirects"), lz("mdb") if "mdb" in a else None)
     bad = a["bad_hop"]
@@ -644,7 +708,11 @@ def _fetch_scenario(a: dict):  # noqa: ANN201
     err = None
     data = None
     try:
-        data = _drive_coro(xf._fetch_with_probe(_BASE, cfg, origin, validator))  # type: ignore[arg-type]
+        if a.get("via_fetch_url") if "via_fetch_url" in a else False:
+            cfg._pool = _Pool(origin)
+            data = _fetch_url_stubbed(_BASE, cfg, url_validator=validator)  # type: ignore[arg-type]
+        else:
+            data = _drive_coro(xf._fetch_with_probe(_BASE, cfg, origin, validator))  # type: ignore[arg-type]
     except HarnessModelError:
         raise
     except Exception as e:  # noqa: BLE001
@@ -730,9 +798,15 @@ def _real_origin(a: dict, body: bytes):  # noqa: ANN201
             return int(q[4:]) if q.startswith("hop=") else 0
 
         def _common(self, method: str) -> bool:
+            nonlocal fault
             i = self._hop()
             log.append((method, i))
             location = "/object?hop=" + str(i + 1)
+            if fault and fault["method"] == method and fault["hop"] == i and "target" not in fault and fault.get("count") is not None:
+                if fault["count"] <= 0:
+                    fault = None
+                else:
+                    fault["count"] -= 1
             if fault and fault["method"] == method:
                 if fault["hop"] == i and fault["stim"] == "malformed-head":
                     self.wfile.write(b"HTTP/1.1 two hundred OK\r\n\r\n")  # a response head no HTTP client can parse
@@ -1086,8 +1160,8 @@ def _failure_stimulus(kind: int) -> str | None:
         return "malformed-head"
     if issubclass(cls, ce.ClientConnectorError):
         return "connect-refused"
-    if issubclass(cls, ce.ServerDisconnectedError):
-        return "disconnect"
+    if issubclass(cls, (ce.ServerDisconnectedError, ConnectionResetError)):
+        return "disconnect"  # (for resets: the nearest thing a loopback origin can do is to drop the connection)
     if issubclass(cls, TimeoutError):
         return "timeout"
     return None
@@ -1137,6 +1211,44 @@ def client_failures_never_name_url_secrets(head_ok: bool, on_head: bool, fail_ho
     a = _Scenario({"head_ok": head_ok, "has_cl": True, "declared": 2, "delivered": 2, "chunk": 2, "cap": 8,
                    "head_hops": fail_hop, "get_hops": fail_hop, "max_redirects": 2, "bad_hop": -1, "embeds": False, "head_status": 403, "get_status": 200,
                    "fault": ("HEAD" if on_head else "GET", fail_hop, _Thunk(lambda: _conc(kind, 0, len(_FAILURES) - 1))), "only_text": True})
+    return _fetch_verdict(a) is None
+
+
+def _replay_retry(a: dict) -> str | None:
+    """fetch_url (real aiohttp, real pool and session reset) against a real origin that fails request #(method, hop) the
+    first `times` times the client gets there (a dropped connection is dropped twice per time: aiohttp itself re-sends an
+    idempotent request once), then serves its redirect chain, one target of which the validator rejects."""
+    stim = _failure_stimulus(a["kind"])
+    if stim is None or stim.startswith("refused") or stim == "connect-refused":
+        return None  # decided by the target itself: it fails every time, there is no second attempt that gets further
+    fault = {"method": "HEAD" if a["on_head"] else "GET", "hop": a["fail_hop"], "stim": stim, "stall": 4.0,
+             "count": a["times"] * (2 if stim == "disconnect" else 1)}
+    sc = {**_REAL_DEFAULTS, "head_ok": a["head_ok"], "head_status": 403, "head_hops": 2, "get_hops": 2, "max_redirects": 2, "bad_hop": a["bad_hop"],
+          "fault_real": fault, "timeout": 1.5 if stim == "timeout" else 30.0}
+    body = bytes((i * 7 + 1) % 251 for i in range(sc["delivered"]))
+    data, err, log, _sent, records = _real_fetch({**sc, "piece": sc["chunk"]}, body, sc["cap"])
+    return _real_facts(sc, data, err, log, records, body, sc["cap"])
+
+
+_RT = pick(1, 2)
+
+
+@cond(q=150, t=600, encoded=_T_ENC + [xf.fetch_url], stubs=_F_STUBS + ["HTTP client failure := as in client_failures_never_name_url_secrets, hitting the first 1..%d attempts at one request" % _RT,
+      "event loop plumbing of fetch_url := _ensure_pool / _reset_session hand out a pool whose session is the scripted origin, asyncio.run_coroutine_threadsafe(coro, loop).result() drives the coroutine; time.monotonic := constant"],
+      bound="the public fetch_url; HEAD and GET redirect chains of 2 hops, max_redirects 2, url_validator rejecting none or one of targets 0..2; one request (HEAD or GET, hop 0..1) fails inside the HTTP client "
+            "the first 1..%d times it is attempted, with any of the %d failure classes; HEAD otherwise answered 200 or 403; honest 2-byte object" % (_RT, len(_FAILURES)),
+      replay=_replay_retry, signature=lambda a, c: "C31:fetch:retry-after-client-failure-unvalidated-or-unbounded")
+def whole_fetch_with_retries_stays_validated_and_bounded(head_ok: bool, on_head: bool, fail_hop: int, kind: int, bad_hop: int, times: int) -> bool:
+    """
+    pre: 0 <= fail_hop <= 1 and 0 <= kind < len(_FAILURES) and -1 <= bad_hop <= 2 and 1 <= times <= _RT
+    post: _
+    """
+    # whatever fetch_url does after a failed attempt (give up, reset the session and start over) is part of the fetch:
+    # every request of every attempt is judged
+    a = _Scenario({"head_ok": head_ok, "has_cl": True, "declared": 2, "delivered": 2, "chunk": 2, "cap": 8,
+                   "head_hops": 2, "get_hops": 2, "max_redirects": 2, "bad_hop": bad_hop, "embeds": False, "head_status": 403, "get_status": 200,
+                   "fault": ("HEAD" if on_head else "GET", fail_hop, _Thunk(lambda: _conc(kind, 0, len(_FAILURES) - 1))),
+                   "fault_times": _Thunk(lambda: _conc(times, 1, _RT)), "via_fetch_url": True})
     return _fetch_verdict(a) is None
 
 
